@@ -401,6 +401,7 @@ func checkMain(args []string) int {
 			"violations":   violations,
 			"outside_subset": outside,
 			"cover_checks_vacuous": vacuous,
+			"slowest_instances": slowest(all, 8),
 			"bounded":      boundedEv,
 		},
 		"assumptions": assumes,
@@ -452,6 +453,22 @@ func autoGenerated(gn string) bool {
 	}
 	k := gn[i+1:]
 	return strings.HasPrefix(k, "frame#") || k == "lossless" || strings.HasPrefix(k, "alloc#") || (strings.HasPrefix(k, "inv#loop") && strings.Contains(k, ".autorange."))
+}
+
+// slowest lists the obligation instances that took longest (stability watch: anything near the timeout is a future false alarm)
+func slowest(obs []*Ob, n int) []map[string]interface{} {
+	var cp []*Ob
+	for _, o := range obs {
+		if o.Kind != "cover" {
+			cp = append(cp, o)
+		}
+	}
+	sort.Slice(cp, func(i, j int) bool { return cp[i].TimeS > cp[j].TimeS })
+	out := []map[string]interface{}{}
+	for i := 0; i < len(cp) && i < n; i++ {
+		out = append(out, map[string]interface{}{"instance": cp[i].Name, "solver": cp[i].Solver, "time_s": round2(cp[i].TimeS)})
+	}
+	return out
 }
 
 func headTail(s string, n int) string {
